@@ -246,7 +246,38 @@ def run_defaults(case):
                                       else case['qvalue']))
     if keys != [k for k in ('r', 'p', 'q') if k in keys]:
         errs.append('order of remaining attributes changed: %s' % keys)
+    # a subclass with its own signature default, processed AFTER its base:
+    # what was found for the base must not be reused for it.  The subclass
+    # has no _yatiml_defaults of its own; where the base has none either, its
+    # default for p is the attribute value itself, and the specification's
+    # verdict for (default = value, no override, value) applies.
+    if not errs and case['override'] == ['none']:
+        exp = _DEF_INDEX.get(json.dumps([case['value'], ['none'],
+                                         case['value']]))
+        if exp in ('kept', 'removed'):
+            ns2 = {'typing': typing, '_d': scalar_py(case['value']), 'C': C}
+            exec('class D(C):\n'
+                 '    def __init__(self, r: int, p: typing.Any = _d, '
+                 'q: int = 3) -> None:\n        pass\n', ns2)
+            pairs = [(yaml.ScalarNode(PRE + 'str', 'r'), dumper_node(9)),
+                     (yaml.ScalarNode(PRE + 'str', 'p'),
+                      dumper_node(scalar_py(case['value'])))]
+            node = y.Node(yaml.MappingNode(PRE + 'map', pairs))
+            try:
+                node.remove_attributes_with_default_values(ns2['D'])
+                got = 'kept' if any(k.value == 'p' for k, _ in
+                                    node.yaml_node.value) else 'removed'
+            except Exception as e:  # noqa
+                got = 'raised %s' % type(e).__name__
+            if got != exp:
+                errs.append('subclass processed after its base: attribute p '
+                            '%s, expected %s: base default %r, subclass '
+                            'default = value %r' % (got, exp, case['sigdef'],
+                                                    case['value']))
     return errs
+
+
+_DEF_INDEX = {}
 
 
 def _def_chunk(cases):
@@ -342,6 +373,9 @@ def run(tier, replay=None):
     # (b) defaults
     rd = run_tlc('MC_RemoveDefaults', 'MC_RemoveDefaults.cfg', timeout=600)
     V.add_tlc(rd, 'RemoveDefaults all (default, override, value) triples')
+    _DEF_INDEX.clear()
+    _DEF_INDEX.update({json.dumps([c['sigdef'], c['override'], c['value']]):
+                       c['p'] for c in rd.cases})
     res = pool_map(_def_chunk, rd.cases)
     for c, errs in zip(rd.cases, res):
         V.replayed += 1
@@ -350,6 +384,41 @@ def run(tier, replay=None):
         for e in errs:
             V.violation({'part': 'defaults', 'case': c}, e)
     V.sample(rd.cases[len(rd.cases) // 3])
+    # (d) set_value on nodes that carry any built-in tag (OpSetValue's
+    #     postcondition does not depend on what the node was before)
+    y = Y()
+    n_sv = 0
+    for tag, text in (('timestamp', '1999-12-31'), ('binary', 'aGk='),
+                      ('value', '='), ('merge', '<<'), ('null', ''),
+                      ('float', '1.5'), ('str', 'x')):
+        for val in ('v', 7, 2.5, False, None):
+            for kind in ('s', 'q', 'm'):
+                if kind == 's':
+                    nd = yaml.ScalarNode(PRE + tag, text)
+                elif kind == 'q':
+                    nd = yaml.SequenceNode(PRE + ('seq' if tag == 'str'
+                                                  else 'omap'), [])
+                else:
+                    nd = yaml.MappingNode(PRE + ('map' if tag == 'str'
+                                                 else 'set'), [])
+                n = y.Node(nd)
+                n_sv += 1
+                try:
+                    n.set_value(val)
+                    okk = n.is_scalar(type(val) if val is not None else None)
+                    gv = n.get_value()
+                    okk = okk and type(gv) is type(val) and gv == val
+                except Exception as e:  # noqa
+                    okk = False
+                    gv = '%s: %s' % (type(e).__name__, e)
+                if not okk:
+                    V.violation({'part': 'set_value', 'tag': tag,
+                                 'kind': kind, 'value': repr(val)},
+                                'set_value(%r) on a %s node tagged !!%s: '
+                                'afterwards is_scalar(%s) / get_value() give '
+                                '%r' % (val, kind, nd.tag[len(PRE):],
+                                        type(val).__name__, gv))
+    V.evaluations += n_sv
     # (c) get_value on parsed scalars
     import check_c09
     import regex2dfa
